@@ -13,45 +13,18 @@ Base/Table.vos Base/Table.vok Base/Table.required_vos: Base/Table.v
 Gen/Consts.vo Gen/Consts.glob Gen/Consts.v.beautified Gen/Consts.required_vo: Gen/Consts.v 
 Gen/Consts.vio: Gen/Consts.v 
 Gen/Consts.vos Gen/Consts.vok Gen/Consts.required_vos: Gen/Consts.v 
-Gen/Effects.vo Gen/Effects.glob Gen/Effects.v.beautified Gen/Effects.required_vo: Gen/Effects.v 
-Gen/Effects.vio: Gen/Effects.v 
-Gen/Effects.vos Gen/Effects.vok Gen/Effects.required_vos: Gen/Effects.v 
 Gen/Enums.vo Gen/Enums.glob Gen/Enums.v.beautified Gen/Enums.required_vo: Gen/Enums.v 
 Gen/Enums.vio: Gen/Enums.v 
 Gen/Enums.vos Gen/Enums.vok Gen/Enums.required_vos: Gen/Enums.v 
 Gen/Layouts.vo Gen/Layouts.glob Gen/Layouts.v.beautified Gen/Layouts.required_vo: Gen/Layouts.v Base/Layout.vo
 Gen/Layouts.vio: Gen/Layouts.v Base/Layout.vio
 Gen/Layouts.vos Gen/Layouts.vok Gen/Layouts.required_vos: Gen/Layouts.v Base/Layout.vos
-Gen/VmTar.vo Gen/VmTar.glob Gen/VmTar.v.beautified Gen/VmTar.required_vo: Gen/VmTar.v 
-Gen/VmTar.vio: Gen/VmTar.v 
-Gen/VmTar.vos Gen/VmTar.vok Gen/VmTar.required_vos: Gen/VmTar.v 
-Spec/VmTar.vo Spec/VmTar.glob Spec/VmTar.v.beautified Spec/VmTar.required_vo: Spec/VmTar.v Base/Layout.vo
-Spec/VmTar.vio: Spec/VmTar.v Base/Layout.vio
-Spec/VmTar.vos Spec/VmTar.vok Spec/VmTar.required_vos: Spec/VmTar.v Base/Layout.vos
-Model/Effects.vo Model/Effects.glob Model/Effects.v.beautified Model/Effects.required_vo: Model/Effects.v Gen/Effects.vo
-Model/Effects.vio: Model/Effects.v Gen/Effects.vio
-Model/Effects.vos Model/Effects.vok Model/Effects.required_vos: Model/Effects.v Gen/Effects.vos
 Model/Vhd.vo Model/Vhd.glob Model/Vhd.v.beautified Model/Vhd.required_vo: Model/Vhd.v Base/Arith.vo Base/Plan.vo Base/Table.vo Gen/Consts.vo
 Model/Vhd.vio: Model/Vhd.v Base/Arith.vio Base/Plan.vio Base/Table.vio Gen/Consts.vio
 Model/Vhd.vos Model/Vhd.vok Model/Vhd.required_vos: Model/Vhd.v Base/Arith.vos Base/Plan.vos Base/Table.vos Gen/Consts.vos
-Model/VmTar.vo Model/VmTar.glob Model/VmTar.v.beautified Model/VmTar.required_vo: Model/VmTar.v Base/Layout.vo Spec/VmTar.vo Gen/VmTar.vo
-Model/VmTar.vio: Model/VmTar.v Base/Layout.vio Spec/VmTar.vio Gen/VmTar.vio
-Model/VmTar.vos Model/VmTar.vok Model/VmTar.required_vos: Model/VmTar.v Base/Layout.vos Spec/VmTar.vos Gen/VmTar.vos
-Proofs/Effects.vo Proofs/Effects.glob Proofs/Effects.v.beautified Proofs/Effects.required_vo: Proofs/Effects.v Gen/Effects.vo Model/Effects.vo
-Proofs/Effects.vio: Proofs/Effects.v Gen/Effects.vio Model/Effects.vio
-Proofs/Effects.vos Proofs/Effects.vok Proofs/Effects.required_vos: Proofs/Effects.v Gen/Effects.vos Model/Effects.vos
 Proofs/Vhd.vo Proofs/Vhd.glob Proofs/Vhd.v.beautified Proofs/Vhd.required_vo: Proofs/Vhd.v Base/Arith.vo Base/Plan.vo Base/Table.vo Model/Vhd.vo
 Proofs/Vhd.vio: Proofs/Vhd.v Base/Arith.vio Base/Plan.vio Base/Table.vio Model/Vhd.vio
 Proofs/Vhd.vos Proofs/Vhd.vok Proofs/Vhd.required_vos: Proofs/Vhd.v Base/Arith.vos Base/Plan.vos Base/Table.vos Model/Vhd.vos
-Proofs/VmTar.vo Proofs/VmTar.glob Proofs/VmTar.v.beautified Proofs/VmTar.required_vo: Proofs/VmTar.v Base/Layout.vo Spec/VmTar.vo Model/VmTar.vo Gen/VmTar.vo Base/Arith.vo
-Proofs/VmTar.vio: Proofs/VmTar.v Base/Layout.vio Spec/VmTar.vio Model/VmTar.vio Gen/VmTar.vio Base/Arith.vio
-Proofs/VmTar.vos Proofs/VmTar.vok Proofs/VmTar.required_vos: Proofs/VmTar.v Base/Layout.vos Spec/VmTar.vos Model/VmTar.vos Gen/VmTar.vos Base/Arith.vos
 Props/C04.vo Props/C04.glob Props/C04.v.beautified Props/C04.required_vo: Props/C04.v Base/Plan.vo Base/Table.vo Model/Vhd.vo Proofs/Vhd.vo
 Props/C04.vio: Props/C04.v Base/Plan.vio Base/Table.vio Model/Vhd.vio Proofs/Vhd.vio
 Props/C04.vos Props/C04.vok Props/C04.required_vos: Props/C04.v Base/Plan.vos Base/Table.vos Model/Vhd.vos Proofs/Vhd.vos
-Props/C09.vo Props/C09.glob Props/C09.v.beautified Props/C09.required_vo: Props/C09.v Gen/Effects.vo Model/Effects.vo Proofs/Effects.vo
-Props/C09.vio: Props/C09.v Gen/Effects.vio Model/Effects.vio Proofs/Effects.vio
-Props/C09.vos Props/C09.vok Props/C09.required_vos: Props/C09.v Gen/Effects.vos Model/Effects.vos Proofs/Effects.vos
-Props/C20.vo Props/C20.glob Props/C20.v.beautified Props/C20.required_vo: Props/C20.v Base/Layout.vo Spec/VmTar.vo Model/VmTar.vo Proofs/VmTar.vo Gen/VmTar.vo
-Props/C20.vio: Props/C20.v Base/Layout.vio Spec/VmTar.vio Model/VmTar.vio Proofs/VmTar.vio Gen/VmTar.vio
-Props/C20.vos Props/C20.vok Props/C20.required_vos: Props/C20.v Base/Layout.vos Spec/VmTar.vos Model/VmTar.vos Proofs/VmTar.vos Gen/VmTar.vos
